@@ -138,6 +138,11 @@ class FnTranslator:
     # ---- expressions: return (pre, text, type)   pre = list of lines "let x ← …" / "let x := …"
     def expr(self, n):
         k = kind(n)
+        if k in ('UnaryOperator', 'BinaryOperator', 'ParenExpr', 'CStyleCastExpr') and qt(n) == 'int':
+            try:
+                return [], '(%d : Int)' % const_int(n, self.tu), 'int'
+            except Unsupported:
+                pass
         if k in ('ParenExpr', 'ConstantExpr'):
             pre, t, ty = self.expr(n['inner'][0])
             return pre, t, ty
@@ -551,8 +556,10 @@ class FnTranslator:
         comps = ([val] if val is not None else []) + outs + (['error'] if self.has_error else [])
         if not comps: comps = ['()']
         tup = comps[0] if len(comps) == 1 else '(%s)' % ', '.join(comps)
-        if self.loop_stack:
+        if self.loop_stack and self.loop_stack[-1][0] == 'ctl':
             return pre + ['pure (Ctl.ret %s)' % tup]
+        if self.loop_stack:
+            raise Unsupported('return inside a loop translated without control state')
         return pre + ['pure %s' % tup]
 
     def assigned(self, s, acc=None):
@@ -599,7 +606,7 @@ class FnTranslator:
         if kind(s) in kinds: return True
         for c in inner(s):
             if isinstance(c, dict) and c:
-                if kind(c) in ('ForStmt', 'WhileStmt', 'SwitchStmt') and kinds == ('BreakStmt',):
+                if kind(c) in ('ForStmt', 'WhileStmt', 'SwitchStmt') and kinds in (('BreakStmt',), ('ContinueStmt',)):
                     continue
                 if self.has_jump(c, kinds): return True
         return False
@@ -658,11 +665,13 @@ class FnTranslator:
         if kd in ('BinaryOperator', 'CompoundAssignOperator', 'UnaryOperator', 'CallExpr'):
             return self.simple(s) + self.block(rest, k)
         if kd == 'BreakStmt':
-            if not self.loop_stack: raise Unsupported('break outside loop')
-            return ['pure (Ctl.brk %s)' % self.loop_stack[-1]]
+            if not self.loop_stack or self.loop_stack[-1][0] != 'ctl': raise Unsupported('break outside loop')
+            return ['pure (Ctl.brk %s)' % self.loop_stack[-1][1]]
         if kd == 'ContinueStmt':
             if not self.loop_stack: raise Unsupported('continue outside loop')
-            return ['pure (Ctl.next %s)' % self.loop_stack[-1]]
+            if self.loop_stack[-1][0] == 'simple':
+                return ['pure %s' % self.loop_stack[-1][1]]
+            return ['pure (Ctl.next %s)' % self.loop_stack[-1][1]]
         if kd == 'IfStmt':
             return self.if_stmt(s, rest, k)
         if kd == 'ForStmt':
@@ -849,14 +858,18 @@ class FnTranslator:
         tup = tuple_text(jv)
         st = self.fresh('st')
         if not has_ret and not has_brk:
-            b = self.block([body], ['pure %s' % tup])
+            self.loop_stack.append(('simple', tup))
+            try:
+                b = self.block([body], ['pure %s' % tup])
+            finally:
+                self.loop_stack.pop()
             out = plo + phi + ['let %s ← loopM %s %s %s (fun %s %s => do' % (st, lo, hi, tup, lean_id(iv), st + '_in')]
             out += indent(tuple_unpack(st + '_in', jv) + b, 4) + ['  )']
             out += tuple_unpack(st, jv)
             # C leaves the induction variable at hi after the loop
             out.append('let %s := (if %s ≤ %s then %s else %s)' % (lean_id(iv), lo, hi, hi, lo))
             return out + self.block(rest, k)
-        self.loop_stack.append(tup)
+        self.loop_stack.append(('ctl', tup))
         try:
             b = self.block([body], ['pure (Ctl.next %s)' % tup])
         finally:
@@ -866,7 +879,7 @@ class FnTranslator:
         after = tuple_unpack(st + '_s', jv)
         after.append('let %s := (if %s ≤ %s then %s else %s)' % (lean_id(iv), lo, hi, hi, lo))
         restl = self.block(rest, k)
-        wrap = 'pure (Ctl.ret %s_r)' % st if self.loop_stack else 'pure %s_r' % st
+        wrap = 'pure (Ctl.ret %s_r)' % st if (self.loop_stack and self.loop_stack[-1][0] == 'ctl') else 'pure %s_r' % st
         out += ['match %s with' % st, '| Sum.inl %s_r => %s' % (st, wrap), '| Sum.inr %s_s => do' % st] + indent(after + restl, 4)
         return out
 
